@@ -57,7 +57,7 @@ func prunePreamble(pre string, body string) string {
 	}
 	defined := map[string]int{} // symbol -> line
 	for i, ln := range lines {
-		if strings.HasPrefix(ln, "(declare-fun ") || strings.HasPrefix(ln, "(define-fun ") || strings.HasPrefix(ln, "(declare-sort ") || strings.HasPrefix(ln, "(define-sort ") {
+		if strings.HasPrefix(ln, "(declare-fun ") || strings.HasPrefix(ln, "(define-fun ") || strings.HasPrefix(ln, "(declare-sort ") || strings.HasPrefix(ln, "(define-sort ") || strings.HasPrefix(ln, "(declare-const ") {
 			t := tok(ln)
 			if len(t) > 1 {
 				defined[t[1]] = i
@@ -78,7 +78,7 @@ func prunePreamble(pre string, body string) string {
 			if keep[i] || ln == "" {
 				continue
 			}
-			isDef := strings.HasPrefix(ln, "(declare-fun ") || strings.HasPrefix(ln, "(define-fun ") || strings.HasPrefix(ln, "(declare-sort ") || strings.HasPrefix(ln, "(define-sort ")
+			isDef := strings.HasPrefix(ln, "(declare-fun ") || strings.HasPrefix(ln, "(define-fun ") || strings.HasPrefix(ln, "(declare-sort ") || strings.HasPrefix(ln, "(define-sort ") || strings.HasPrefix(ln, "(declare-const ")
 			t := tok(ln)
 			need := false
 			if isDef {
